@@ -5,6 +5,7 @@ mod fam_dmn;
 mod fam_fe;
 mod fam_kern;
 mod fam_proxy;
+mod fam_race;
 mod fam_sess;
 mod fam_shut;
 mod fam_valid;
@@ -34,6 +35,7 @@ fn run_case(c: &Val) -> Val {
         "sess" => fam_sess::run(args),
         "shut" => fam_shut::run(args),
         "kern" => fam_kern::run(args),
+        "race" => fam_race::run(args),
         "iovs" => {
             let lens: Vec<usize> = args[0].as_l().unwrap_or(&[]).iter().map(|v| v.as_u64().unwrap_or(0) as usize).collect();
             let skip = args[1].as_u64().unwrap_or(0) as usize;
